@@ -13,6 +13,7 @@ CONSTANTS Kinds,       \* kinds of operations committed through the API: subset 
           MaxBlock,    \* times the activity partition starts rejecting publishes
           MaxTake,     \* controller changes while a controller exists
           MaxCrash,    \* process crashes
+          MaxStep,     \* step-downs of a controller whose process keeps running
           MaxZombie,   \* publishes by a dispatcher whose server is not the controller any more
           MaxSnap,     \* snapshots
           Keeps,       \* set of trailing-log counts a snapshot may keep
@@ -22,14 +23,17 @@ CONSTANTS Kinds,       \* kinds of operations committed through the API: subset 
 VARIABLES bud, last
 mcvars == <<vars, bud, last>>
 
-B0 == [ops |-> 0, sys |-> 0, fail |-> 0, recfail |-> 0, block |-> 0, take |-> 0, crash |-> 0, snap |-> 0, zombie |-> 0]
+B0 == [ops |-> 0, sys |-> 0, fail |-> 0, recfail |-> 0, block |-> 0, take |-> 0, crash |-> 0, snap |-> 0, zombie |-> 0, step |-> 0]
 Spend(f) == bud' = [bud EXCEPT ![f] = @ + 1]
 Keep == UNCHANGED bud
 
 OpC(i) == "op" \o ToString(i)
 
 \* a dispatcher that moves without anybody's help
-CanStep == \E n \in Nodes : Ready(n) \/ (up[n] /\ ctl = n /\ disp[n].st = "init")
+CanStep == \E n \in Nodes :
+             \/ (Ready(n) /\ ~disp[n].lost)
+             \/ (up[n] /\ ctl = n /\ disp[n].st = "init")
+             \/ (up[n] /\ ctl # n /\ disp[n].st \in {"run", "wait", "init"})   \* notices, exits
 Waiting == \E n \in Nodes : disp[n].st = "wait"
 Leaderless == ctl = None /\ \E n \in Nodes : up[n]
 EnvOK == Eager => (~CanStep /\ ~Leaderless)
@@ -53,13 +57,18 @@ Others ==
   \* take-over while the old controller still believes it leads
   \/ \E n \in Nodes : ctl # None /\ bud.take < MaxTake /\ EnvOK /\ DoControllerChange(n) /\ Spend("take")
                       /\ L([a |-> "TakeOver", n |-> n, old |-> ctl])
+  \* (eager: not while the dispatcher is between publish and record - on one real
+  \*  server the record of a stepped-down controller cannot be made to fail)
+  \/ \E n \in Nodes : bud.step < MaxStep /\ EnvOK /\ (Eager => disp[n].st # "pub") /\ DoStepDown(n) /\ Spend("step")
+                      /\ L([a |-> "StepDown", n |-> n])
   \/ \E n \in Nodes : DoBecomeLeader(n) /\ Keep /\ L([a |-> "BecomeLeader", n |-> n])
   \/ \E n \in Nodes : DoNoticeLost(n) /\ Keep /\ L([a |-> "NoticeLost", n |-> n])
   \/ \E n \in Nodes : DoDispatchExit(n) /\ Keep /\ L([a |-> "DispatchExit", n |-> n])
   \/ \E n \in Nodes : ctl = n /\ DoDispatchPublish(n) /\ Keep /\ L([a |-> "DispatchPublish", n |-> n, id |-> disp[n].idx])
   \/ \E n \in Nodes : ctl # n /\ bud.zombie < MaxZombie /\ DoDispatchPublish(n) /\ Spend("zombie")
                       /\ L([a |-> "DispatchPublish", n |-> n, id |-> disp[n].idx])
-  \/ \E n \in Nodes : blocked /\ DoPublishFail(n, FALSE) /\ Keep
+  \* (eager: a dispatcher whose server stepped down notices and exits, nothing else)
+  \/ \E n \in Nodes : blocked /\ (Eager => ctl = n) /\ DoPublishFail(n, FALSE) /\ Keep
                       /\ L([a |-> "PublishFail", n |-> n, landed |-> FALSE, why |-> "blocked"])
   \/ \E n \in Nodes, landed \in BOOLEAN :
        /\ ~blocked /\ bud.fail < MaxFail /\ DoPublishFail(n, landed) /\ Spend("fail")
@@ -71,7 +80,7 @@ Others ==
   \/ \E n \in Nodes, cm \in BOOLEAN :
        /\ ctl = n /\ bud.recfail < MaxRecFail /\ DoRecordFail(n, cm) /\ Spend("recfail")
        /\ L([a |-> "RecordFail", n |-> n, committed |-> cm, why |-> "spontaneous"])
-  \/ \E n \in Nodes : DoBackoff(n) /\ Keep /\ L([a |-> "Backoff", n |-> n])
+  \/ \E n \in Nodes : (Eager => ctl = n) /\ DoBackoff(n) /\ Keep /\ L([a |-> "Backoff", n |-> n])
   \/ bud.block < MaxBlock /\ EnvOK /\ (Eager => ~Waiting) /\ ctl # None /\ up[ctl] /\ DoBlock /\ Spend("block") /\ L([a |-> "Block"])
   \/ EnvOK /\ DoUnblock /\ Keep /\ L([a |-> "Unblock"])
   \/ \E n \in Nodes : bud.crash < MaxCrash /\ EnvOK /\ DoCrash(n) /\ Spend("crash")
